@@ -264,8 +264,8 @@ def main(argv=None):
             print('  obligation: %s :: %s  [%s]%s' % (cn, o['name'], o['backend'],
                                                       ' (replayed on native code: reproduced)' if confirmed else ''))
             viol_records.append(dict(contract=cn, obligation=o['name'], replay=path, reproduced_natively=bool(confirmed)))
-            if len(viol_records) >= 40:
-                break
+            if len(viol_records) >= 6 or len(seen) >= 10:
+                break       # a handful of replayed violations is enough to report; every replay is a native process
         if viol_records:
             exit_code = 1
     if engine_errors and exit_code == 0:
